@@ -262,8 +262,9 @@ One observation = the results of the real `Profile` on one domain `x`:
 (`?e` = error returned). -/
 
 structure Obs where
-  /-- profile flag: transitional processing (ToUnicode is always non-transitional, so the
-  `ToASCII ∘ ToUnicode` clause is not claimed for it) -/
+  /-- profile flag: transitional processing (ToUnicode is always non-transitional; the
+  `ToASCII ∘ ToUnicode` clause fails for it exactly through deviation characters, see
+  `transitionalDeviation`) -/
   transitional : Bool
   /-- profile flag: decoded A-labels are validated (`fromPuny`) but the mapping step does not
   validate U-labels (`New(ValidateLabels(true))` without `MapForLookup`) -/
@@ -310,6 +311,14 @@ def aceLabelCanonical (l : List Nat) : Bool :=
 /-- `none` = accepted. -/
 def badALabel (l : List Nat) : Bool := undecodableALabel l || asciiOnlyALabel l
 
+/-- The four UTS 46 deviation characters (U+00DF ß, U+03C2 ς, U+200C ZWNJ, U+200D ZWJ): transitional
+processing maps/drops them in U-labels but keeps them in decoded A-labels. -/
+def isDeviation (c : Nat) : Bool := c == 223 || c == 962 || c == 8204 || c == 8205
+
+/-- Region of the known finding `idna-transitional-alabel-deviation-roundtrip`: a transitional
+profile whose ToUnicode result holds a deviation character. -/
+def transitionalDeviation (o : Obs) : Bool := o.transitional && o.u.any isDeviation
+
 def monitorObs (o : Obs) : Option String :=
   if asciiLower o.x && (splitDots o.x).any badALabel && !o.ae then
     some "undecodable-or-ascii-only-alabel-accepted-by-toascii"
@@ -319,7 +328,7 @@ def monitorObs (o : Obs) : Option String :=
     some "tounicode-differs-from-model-decode"
   else if o.ae then none
   else if !o.vonly && (o.aae || o.aa != o.a) then some "toascii-not-idempotent"
-  else if !o.transitional && !o.vonly && !(splitDots o.u).any hasAce && (o.aue || o.au != o.a) then
+  else if !transitionalDeviation o && !o.vonly && !(splitDots o.u).any hasAce && (o.aue || o.au != o.a) then
     some "toascii-of-tounicode-differs"
   else if !(splitDots o.a).all aceLabelCanonical then some "noncanonical-alabel-in-output"
   else none
